@@ -19,7 +19,7 @@ Definition zeros (n : N) : bytes := repeat x00 (N.to_nat n).
 Definition put_at (buf : bytes) (pos : N) (bs : bytes) : bytes :=
   take pos buf ++ zeros (pos - len buf) ++ bs ++ drop (pos + len bs) buf.
 
-Definition io_fail {A} : res A := Err (EIo KInjected IInjected).
+Definition io_fail {A} : res A := Err (EIo KOther IInjected).
 
 Definition dev_write (d : dev) (bs : bytes) : dev * res N :=
   match d_plan d with
@@ -248,9 +248,18 @@ Section Writer.
   Definition finish_comp (i : winner) : winner * res unit :=
     match i with
     | WComp m lvl d None pending =>
-        match dev_write_all d (enc m lvl pending) with
+        let out := enc m lvl pending in
+        match dev_write_all d out with
         | (d', Ok _) => (WStorer d', Ok tt)
-        | (d', Err e) => (WClosed (Some d'), Err e)
+        | (d', Err e) =>
+            (* finish() consumed the encoder; on failure it is dropped, and the Drop of the flate2 and bzip2
+               encoders tries once more to write what is still buffered (errors ignored); zstd's does not *)
+            let d'' := match m with
+                       | CompressionMethod_Deflated | CompressionMethod_Bzip2 =>
+                           fst (dev_write_all d' (drop (d_pos d' - d_pos d) out))
+                       | _ => d'
+                       end in
+            (WClosed (Some d''), Err e)
         | (d', Panic p) => (WClosed (Some d'), Panic p)
         end
     | WComp m lvl d (Some (buf, k)) pending => (WEnc d (buf ++ enc m lvl pending) k, Ok tt)
